@@ -43,10 +43,11 @@ DEFAULTS = dict(
     Attach0=[], LazyK=3, Queries=set(), EmitKeys={"mods", "kids", "par", "cache"},
     ScalDom={"name": {"s0", "s1", "s2"}, "binary_path": {"s0", "s2"}, "isa": {"E0", "E1"}, "file_format": {"E0", "E1"},
              "byte_order": {"E0", "E1"}, "preferred_addr": {"0", "MAX64"}, "rebase_delta": {"0", "MIN64"},
-             "at_end": {"F", "T"}, "decode_mode": {"E0", "E1"}, "xoffset": {"0", "MIN64"}, "xscale": {"1", "-1"}},
+             "at_end": {"F", "T"}, "decode_mode": {"E0", "E1"}, "xoffset": {"0", "MIN64"}, "xscale": {"1", "-1"},
+             "version": {"CUR"}},
     ScalDef={"name": "s0", "binary_path": "s0", "isa": "E0", "file_format": "E0", "byte_order": "E0",
              "preferred_addr": "0", "rebase_delta": "0", "at_end": "F", "decode_mode": "E0", "xoffset": "0",
-             "xscale": "1"},
+             "xscale": "1", "version": "CUR"},
     ExprKind={}, ExprSym2={}, Symx0=set(), Cfg0=set(), Pay0=set(), Entry0=set(), ReloadWeight=1, SweepOps={"reload"}, SweepMode=False,
 )
 
@@ -95,6 +96,14 @@ def _rels(suffix, second):
 _rels("", None)
 _rels("_same", "i1")
 _rels("_other", "i2")
+
+# --- arguments of a foreign kind (a symbol offered to module.sections, ...): SetForeign.  A module owns three
+#     sets whose elements share one back pointer, so "child of this module" must not be taken for "member".
+CONFIGS["RelX"] = dict(
+    IRs={"i1"}, Modules={"m1", "m2"}, Sections={"s1"}, Symbols={"y1"}, Proxies={"p1"}, Intervals={"v1"},
+    CodeBlocks={"c1"}, Families={"xkind", ("parent", "sec"), ("parent", "sym"), ("parent", "prx")},
+    Attach0=[("m1", "i1"), ("s1", "m1"), ("y1", "m1"), ("p1", "m1"), ("v1", "s1"), ("c1", "v1")],
+    EmitKeys=set(TREE_KEYS) | {"named"})
 
 # --- the module list: 2 IRs x 3 modules, the whole MutableSequence interface
 CONFIGS["ModList"] = dict(
@@ -176,6 +185,10 @@ CONFIGS["LazyB"] = dict(    # interval index: 2 blocks
     IRs={"i1"}, Modules={"m1"}, Sections={"s1"}, Intervals={"v1"}, CodeBlocks={"c1"}, DataBlocks={"d1"},
     Addrs={0}, ISizes={4}, Offs={0, 2}, BSizes={2}, Families={"geom.bk", ("parent", "blk"), "lookup", "lazy"},
     Queries={(0, 2, 1), (2, 5, 1)}, LazyK=3, Attach0=CHAIN + [("v1", "s1")], EmitKeys=set(LAZY_KEYS))
+CONFIGS["LazyMove"] = dict(  # blocks moved between two intervals from the receiving side, lookups in between
+    IRs={"i1"}, Modules={"m1"}, Sections={"s1"}, Intervals={"v1", "v2"}, CodeBlocks={"c1", "c2"},
+    Families={("set", "blk"), "lookup", "lazy"}, ArgMax=1, Queries={(0, 1, 1)}, LazyK=3,
+    Attach0=CHAIN + [("v1", "s1"), ("v2", "s1"), ("c1", "v1"), ("c2", "v1")], EmitKeys=set(LAZY_KEYS))
 CONFIGS["LazySim"] = dict(CONFIGS["GeomSim"], Families={"geom", "parent", "set", "lookup", "lazy", "reload"},
                           Queries={(0, 3, 1), (2, 9, 1), (1, 12, 2), (5, 6, 1)}, LazyK=5,
                           EmitKeys=set(LAZY_KEYS))
@@ -234,7 +247,8 @@ CONFIGS["Bytes"] = dict(
     Addrs={5}, ISizes={0, 1, 2, 3}, Offs={0, 1, 2}, BSizes={0, 1, 3}, ByteVals={0, 7}, MaxBytes=3,
     Families={"geom", "bytes", "reload", "ctor"}, Attach0=[("m1", "i1"), ("s1", "m1"), ("v1", "s1"), ("c1", "v1")],
     EmitKeys=set(BYTE_KEYS))
-CONFIGS["BytesQ"] = dict(CONFIGS["Bytes"], ISizes={0, 2, 3}, Offs={0, 2}, BSizes={0, 3}, ByteVals={7}, MaxBytes=3)
+# (abstract address 0 with BASE 0 is address 0 itself: the one integer that is falsy)
+CONFIGS["BytesQ"] = dict(CONFIGS["Bytes"], Addrs={0}, ISizes={0, 2, 3}, Offs={0, 2}, BSizes={0, 3}, ByteVals={7}, MaxBytes=3)
 
 SYMX_KEYS = {"mods", "kids", "par", "addr", "isz", "symx", "tags"}
 # --- symbolic_expressions: the MutableMapping interface (C16) and lookups by address (C13)
@@ -252,6 +266,13 @@ CONFIGS["SymX2"] = dict(    # two intervals in two sections: moves and address c
 
 
 CONFIGS["SymX2T"] = dict(CONFIGS["SymX2"], Offs={0, 3})
+CONFIGS["SymXBig"] = dict(  # enough intervals per section that the section's lazy index replays pending events
+    IRs={"i1"}, Modules={"m1"}, Sections={"s1", "s2"}, Intervals={"v1", "v2", "v3", "v4", "v5", "v6"}, Symbols={"y1"},
+    Exprs={"e1", "e2"}, ExprSym={"e1": "y1", "e2": "y1"}, Addrs={0, 2, 5, 9}, ISizes={0, 1, 4, 7}, Offs={0, 1, 3}, ArgMax=1,
+    Families={"symx", "geom.iv", ("parent", "biv")},
+    Attach0=[("m1", "i1"), ("s1", "m1"), ("s2", "m1"), ("y1", "m1")] + [("v%d" % k, "s1") for k in range(1, 7)],
+    Symx0={("v1", 0, "e1"), ("v2", 1, "e2"), ("v3", 0, "e1"), ("v4", 3, "e2"), ("v5", 1, "e1"), ("v6", 0, "e2")},
+    EmitKeys=set(SYMX_KEYS))
 
 
 def proto_base(schema):
@@ -280,10 +301,10 @@ def proto_base(schema):
                  "byte_order": {"E%d" % k for k in range(n["ByteOrder"])},
                  "decode_mode": {"E%d" % k for k in range(n["DecodeMode"])},
                  "preferred_addr": {"0", "1", "MAX64", "2^63"}, "rebase_delta": {"0", "1", "-1", "MIN64", "MAX63"},
-                 "at_end": {"F", "T"}, "xoffset": {"0", "1", "-1", "MIN64", "MAX63"},
+                 "at_end": {"F", "T"}, "version": {"CUR", "NEXT", "ZERO"}, "xoffset": {"0", "1", "-1", "MIN64", "MAX63"},
                  "xscale": {"0", "1", "-1", "MIN64", "MAX63"}},
         EmitKeys={"mods", "kids", "par", "cache", "addr", "isz", "off", "bsz", "sname", "pay", "symx", "cfg", "bytes",
-                  "tags", "entry", "scal"},
+                  "tags", "entry", "scal", "mnamed"},
     )
 
 
